@@ -91,6 +91,8 @@ SIMPLE_RULES = [
     ('R3.for_ref', r'\bfor &(\w+) in ([^\n{]+?) \{', r'for \1 in \2 { let \1 = *\1;'),
     ('R3.iflet_some_ref', r'\bif let Some\(&(\w+)\) =(\s+)([^\n{]+?)(\s+)\{',
      r'if let Some(\1) =\2\3\4{ let \1 = *\1;'),
+    ('R3.whilelet_some_ref', r'\bwhile let Some\(&(\w+)\) =(\s+)([^\n{]+?)(\s+)\{',
+     r'while let Some(\1) =\2\3\4{ let \1 = *\1;'),
     # R4 enumerate over a Vec field/local
     ('R4.enumerate_ref',
      r'\bfor \((\w+), &(\w+)\) in ([\w.]+)\.iter\(\)\.enumerate\(\) \{',
